@@ -19,7 +19,7 @@ func init() {
 		Decided: "no code path of the interpreter writes through variable storage it shares with another shell: every element store, map update, delete, clear, copy, in-place sort/insert/delete, " +
 			"and every append whose base may have spare capacity, on a list/index/map of a shell variable or on the positional parameters, is applied to storage created in the same activation " +
 			"(clone, make, literal), as computed by an SSA provenance walk with reaching stores for local structs (R27a); subshell() gives the copy fresh maps, slices and environment, apart from a " +
-			"named table of fields shared by design (R27b); an overlay environment writes to its parent only in function scope, which only function calls create (R27c).",
+			"named table of fields shared by design (R27b); an overlay environment writes to its parent only in function scope, which only function calls create (R27c). Inside every isolating construct (command/process substitution callbacks, the Subshell clause, the pipeline clause, the background branch) calls that can change variables, functions, aliases, options, directory or positional parameters run on a runner made by subshell() (R27d).",
 		NotDecided:  "isolation of cd, shell options and traps beyond `the field is copied by value`; behaviour of user-supplied handlers and Environ implementations.",
 		Assumptions: []string{"no reflection/unsafe in interp, expand, internal (checked)", "storage returned by Environ.Get / lookupVar / Resolve and received as a parameter is shared; clones and makes are not"},
 		Controls:    c27Controls,
